@@ -1,3 +1,4 @@
+use crate::sync::Mutex;
 use crate::{
     Engine, Event, Result,
     event::{Emitter, TaskExtra},
@@ -6,7 +7,7 @@ use crate::{
         queue::{Queue, Signal},
     },
 };
-use std::sync::{Arc, Mutex};
+use std::sync::Arc;
 use tracing::debug;
 
 #[derive(Clone)]
